@@ -71,7 +71,8 @@ SPEC = {
         "(asserted by the library); flattenRanks styles tuple/pair (linear only with authoritative shapes), "
         "mergeRanks styles tuple/absolute/relative; multi-level flatten/merge only without stored empty fibers, "
         "flatten/merge below the top only when no stored sub-fiber at that level is content-less (updatePayloads "
-        "skips those, leaving sub-trees of different depth: C09's); a two-level unflatten of a doubly flattened "
+        "skips those, leaving sub-trees of different depth: C09's); colliding merges (absolute/relative) only "
+        "when at most one rank lies below the merged ones (deeper unions meet un-inferable defaults); a two-level unflatten of a doubly flattened "
         "tensor only without authoritative shapes, and Tensor.unflattenRanks only when the flattened rank stores "
         "an element (nested / estimated-as-0 shape bookkeeping: C14's); scalar + and * at leaf-level "
         "fibers only; fiber + fiber on free fibers only up to depth 2 and without stored empty sub-fibers (a free "
@@ -901,6 +902,10 @@ def _guard(op, target, default, cfg, at_leaf_level=True):
         lv = fibers_by_level(f)
         if len(lv) > a["depth"] and any(g.coords and not has_content(g, default) for g in lv[a["depth"]]):
             return "flatten below the top over a stored sub-fiber without content"
+    if n == "mergeRanks" and a.get("style") in ("absolute", "relative") and f is not None:
+        total = raw_depth(target) if isinstance(target, Tensor) else len(fibers_by_level(f))
+        if total - (a["depth"] + a["levels"] + 1) >= 2:
+            return "colliding merge above two or more ranks"
     if n in ("add_ff", "mul_ff") and f is not None and f.getOwner() is None and len(fibers_by_level(f)) >= 2:
         if has_empty_fiber(f):
             return "free interior empty fiber"
